@@ -387,6 +387,29 @@ func init() {
 	reg("bytes.Equal", bytesEq)
 	bytesCmp := func(in *Interp, fr *frame, a []Value) Value {
 		x, y := a[0].(Slice), a[1].(Slice)
+		if wx, ok := wholeTerm(x); ok {
+			if wy, ok := wholeTerm(y); ok && wx.sort == wy.sort {
+				return Ite(Cmp(OUlt, wx, wy), BV(64, ^uint64(0)), Ite(Eq(wx, wy), BV(64, 0), BV(64, 1)))
+			}
+		}
+		if len(x) == 32 && len(y) == 32 {
+			// digest = H64 ++ G192
+			hx, ok1 := wholeTerm(x[:8:8])
+			hy, ok2 := wholeTerm(y[:8:8])
+			gx, ok3 := wholeTerm(x[8:])
+			gy, ok4 := wholeTerm(y[8:])
+			if ok1 && ok2 && ok3 && ok4 {
+				eq := Eq(hx, hy)
+				if v, ok := in.path.implied(eq); ok {
+					eq = Bool(v)
+				}
+				if eq.IsFalse() {
+					return Ite(Cmp(OUlt, hx, hy), BV(64, ^uint64(0)), BV(64, 1))
+				}
+				tail := Ite(Cmp(OUlt, gx, gy), BV(64, ^uint64(0)), Ite(Eq(gx, gy), BV(64, 0), BV(64, 1)))
+				return Ite(Cmp(OUlt, hx, hy), BV(64, ^uint64(0)), Ite(eq, tail, BV(64, 1)))
+			}
+		}
 		n := len(x)
 		if len(y) < n {
 			n = len(y)
@@ -434,6 +457,68 @@ func init() {
 	reg("internal/bytealg.IndexByteString", indexByte)
 	reg("bytes.IndexByte", indexByte)
 
+	// ---- strings built from data
+	reg("(net.IP).String", func(in *Interp, fr *frame, a []Value) Value {
+		ip, _ := a[0].(Slice)
+		return in.ipStringValue(ip)
+	})
+	reg("strconv.Itoa", func(in *Interp, fr *frame, a []Value) Value { return decString(asTerm(a[0]), true) })
+	reg("strconv.FormatInt", func(in *Interp, fr *frame, a []Value) Value {
+		if b, ok := concInt(a[1]); !ok || b != 10 {
+			in.abort("unsupported: FormatInt base")
+		}
+		return decString(asTerm(a[0]), true)
+	})
+	reg("strconv.FormatUint", func(in *Interp, fr *frame, a []Value) Value {
+		if b, ok := concInt(a[1]); !ok || b != 10 {
+			in.abort("unsupported: FormatUint base")
+		}
+		return decString(asTerm(a[0]), false)
+	})
+	// sha256: uninterpreted function H on strings, assumed collision-free on the inputs seen on a path
+	reg("crypto/sha256.Sum256", func(in *Interp, fr *frame, a []Value) Value {
+		data := a[0].(Slice)
+		var st *Term
+		if len(data) == 1 {
+			if sb, ok := data[0].(symBytes); ok {
+				st = in.strTerm(sb.s)
+			}
+		}
+		if st == nil {
+			bs, ok := concBytes(data)
+			if !ok {
+				in.abort("unsupported: sha256 of symbolic bytes")
+			}
+			st = litTerm(string(bs))
+		}
+		// The digest is H64(x) ++ G192(x): two uninterpreted functions. Assumption (listed in evidence):
+		// distinct inputs seen on one path differ within the first 8 digest bytes.
+		h := App("H64", 64, st)
+		g := App("G192", 192, st)
+		p := in.path
+		fresh := true
+		for _, u := range p.hashTerms {
+			if deepSame(u, st) {
+				fresh = false
+				break
+			}
+		}
+		if fresh {
+			for _, u := range p.hashTerms {
+				in.assumeAxiom(Or(in.strTermEq(st, u), Not(Eq(h, App("H64", 64, u)))))
+			}
+			p.hashTerms = append(p.hashTerms, st)
+		}
+		out := make(Array, 32)
+		for i := 0; i < 8; i++ {
+			out[i] = Extract(h, 63-8*i, 56-8*i)
+		}
+		for i := 0; i < 24; i++ {
+			out[8+i] = Extract(g, 191-8*i, 184-8*i)
+		}
+		return out
+	})
+
 	// ---- os
 	reg("os.Getenv", func(in *Interp, fr *frame, a []Value) Value { return "" })
 	reg("os.LookupEnv", func(in *Interp, fr *frame, a []Value) Value { return Tuple{"", tFalse} })
@@ -442,6 +527,30 @@ func init() {
 	// ---- runtime odds and ends
 	reg("runtime.KeepAlive", func(in *Interp, fr *frame, a []Value) Value { return nil })
 	reg("internal/race.Enabled", nil)
+}
+
+// wholeTerm recognises a byte slice that is exactly the big-endian byte image of one wide term.
+func wholeTerm(x Slice) (*Term, bool) {
+	if len(x) < 8 {
+		return nil, false
+	}
+	var base *Term
+	n := len(x)
+	for i, e := range x {
+		t, ok := e.(*Term)
+		if !ok || t.op != OExtract || t.hi != 8*(n-i)-1 || t.lo != 8*(n-i-1) {
+			return nil, false
+		}
+		if base == nil {
+			base = t.args[0]
+		} else if base != t.args[0] {
+			return nil, false
+		}
+	}
+	if int(base.sort) != 8*n {
+		return nil, false
+	}
+	return base, true
 }
 
 func isDoneSet(v Value) bool {
